@@ -25,6 +25,12 @@ MANIFEST = {
                   "C17_history_roundtrip (the final value of any history, if canonical: decode(payload) = itself, |payload| = Size(), "
                   "ExtractSEIData(WriteSEIMessages [m]) = [(type, payload)]), C17_canonical_history (canonical-preserving edits: every "
                   "intermediate value canonical, re-decodes are no-ops), C17_typed_in_nalu (all four typed messages between arbitrary messages). "
+                  "The written NAL unit read back through the codec entry points (coq/c17/C17NaluModel.v: sei.DecodeSEIMessage, avc.ParseSEINalu, "
+                  "hevc.ParseSEINalu + fillHEVCPicTimingParams): C17_nalu_written (every non-empty written list, every valid header, every SPS "
+                  "parameter set: the wrappers run their decoders on exactly the written (type, payload) pairs in order and report no trailing-bits "
+                  "error), C17_nalu_roundtrip (mixed lists of canonical typed messages of the path (AVC picture timing with the SPS' Vcl-else-Nal HRD "
+                  "lengths cut to a byte, or none; HEVC time code / mdcv / cll), pass-through messages (any value a pass-through decoder returned, "
+                  "incl. HEVC picture timing under a VUI) and general data: ParseSEINalu(header + WriteSEIMessages ms) = ms, value for value). "
                   "Explored, not proved: that the Go values carry no state besides their exported fields (H lines of the correspondence + the "
                   "payload-depends-on-history oracle of the search, over generated histories).",
     "level_note": "Every link of the list round trip is proved inside Coq (writer = escape of the plain serialisation, reader over the "
@@ -66,7 +72,8 @@ def run(ctx):
         "model: coq/c17/C17TypedModel.v is a hand transcription of sei136.go, sei1_avc.go, sei137.go, sei144.go, sei4.go, sei5.go, "
         "sei1_hevc.go (outcome class only for the HEVC picture timing); coq/c17/C17HistModel.v: a typed message value is its exported "
         "field record (histories: build|decode, edit/copy/observe/re-decode steps); coq/c17/C17TieModel.v: DecodeTimeCodeSEI / "
-        "DecodePicTimingAvcSEIHRD over the C13 bits.Reader machine (proved equal to the bit-list decoders)",
+        "DecodePicTimingAvcSEIHRD over the C13 bits.Reader machine (proved equal to the bit-list decoders); coq/c17/C17NaluModel.v: "
+        "sei.DecodeSEIMessage, avc.ParseSEINalu, hevc.ParseSEINalu + fillHEVCPicTimingParams (the SPS is the few VUI/HRD fields the wrappers read)",
         "imported C13 lemmas (coq/c13/C13WriterProofs.v, C13ReaderProofs.v, C13MarkProofs.v): part of the proof, checked by the same build",
     ]
     ctx.assumptions += ["Type() < 2^64 (Go uint), Size() = len(Payload()) < 2^32 (the extractor accumulates the size in a uint32)",
@@ -81,7 +88,8 @@ def run(ctx):
     exh = ctx.n(3, 4)
     nt = ctx.n(5000, 200000)
     nh = ctx.n(6000, 200000)
-    rc, cases, e = sh2([exe, "corr", "-seed", str(ctx.seed), "-n", str(n), "-nt", str(nt), "-nh", str(nh), "-exh", str(exh)], timeout=3000)
+    nn = ctx.n(3000, 100000)
+    rc, cases, e = sh2([exe, "corr", "-seed", str(ctx.seed), "-n", str(n), "-nt", str(nt), "-nh", str(nh), "-nn", str(nn), "-exh", str(exh)], timeout=3000)
     if rc != 0:
         raise common.CheckError("harness corr failed: " + e[-1000:])
     lines = cases.splitlines()
@@ -93,6 +101,7 @@ def run(ctx):
     ctx.cov["evaluations"] += len(lines)
     ctx.cov["distinct_nontrivial"] += distinct
     kinds = {}
+    nalu_msgs = {}
     hist_steps = set()
     for l in lines:
         f = l.split("\t")
@@ -106,10 +115,18 @@ def run(ctx):
             hist_steps.update(x.split(".")[-1].split("[")[0] for x in st)
         if f[0] == "HP":
             k = "HP:%s:%s:%s" % (f[2], "edited" if ">" in f[3] else "unedited", f[6])
+        if f[0] in ("NA", "NH"):   # ParseSEINalu: SPS parameters, outcome class
+            k = "%s:%s:%s" % (f[0], f[2].split(":")[0], f[4])
+            if f[4] in ("ok", "missing") and f[5] != "-":
+                for m in f[5].split("&"):
+                    mf = m.split("~")
+                    mk = mf[0] + (":" + mf[1].split(":")[0] if mf[0] == "P" else (":hrd" if mf[1][0] != "-" else ":nohrd") if mf[0] == "T1" else "")
+                    nalu_msgs[f[0] + ":" + mk] = nalu_msgs.get(f[0] + ":" + mk, 0) + 1
         kinds[k] = kinds.get(k, 0) + 1
     ctx.notes["correspondence"] = {
         "cases": len(lines), "mismatches": len(mism), "distinct_cases": distinct,
         "exhaustive_payload_len": exh, "kinds_by_outcome": kinds, "history_step_kinds_seen": sorted(hist_steps),
+        "nalu_messages_returned_by_kind": nalu_msgs,
         "input_distribution": "L: message lists written by Go and by the model (bytes compared), then extracted by both: every "
                               "single message with type in {0,3,128,255} and payload over {00,01,03,80,ff} up to the exhaustive length; "
                               "all pairs over boundary types with payloads up to 1 byte; random lists of 0-6 messages, types from "
@@ -132,7 +149,15 @@ def run(ctx):
                               "1 step in 8 an out-of-domain edit; the final EXPORTED field values, Size(), Payload(), the bytes of WriteSEIMessages([m]) and "
                               "decode(Payload()) are compared with typed_observe of the final field record. HP: pass-through decoders, then edits of the "
                               "decoded message's exported fields (CEA-608 fields, UUID, ITU-T data, HEVC pic timing fields; in place and on a copy): "
-                              "Payload()/Size() still the decoder input",
+                              "Payload()/Size() still the decoder input. "
+                              "NA/NH: avc.ParseSEINalu / hevc.ParseSEINalu vs parse_sei_nalu_avc / parse_sei_nalu_hevc (tied to C17_nalu_written / "
+                              "C17_nalu_roundtrip): NAL units = header (valid ones with other nal_ref_idc / layer bits, 1 in 12 another NAL type) + "
+                              "WriteSEIMessages of 1-4 messages: AVC picture timing built for the external lengths of the SPS (1 in 6 for other lengths), "
+                              "typed messages of the other codec, registered / CEA-608 / unregistered user data (accepted and refused payloads), HEVC picture "
+                              "timing payloads, general data, types 1/136/137/144 with arbitrary payloads; 1 in 8 mutated behind the header, 1 in 8 with the "
+                              "last byte dropped, a few 0-3 byte units. SPS: nil | no VUI | VUI without HRD | Vcl | Nal | both (different lengths; 1 in 6 "
+                              "a uint field above 255); HEVC: nil | no VUI | VUI with/without HrdParameters (all flags and length fields). Compared: "
+                              "class ok|missing|notsei|err|panic and, per returned message, the Go type, exported fields, Type(), Size(), Payload()",
     }
     ctx.cov["samples"] += [l[:300] for l in lines[200:203]] + [l[:300] for l in lines[-3:]]
     ctx.log("correspondence: %d cases, %d mismatches" % (len(lines), len(mism)))
@@ -140,7 +165,8 @@ def run(ctx):
     ns = ctx.n(5000, 200000)
     nst = ctx.n(20000, 1000000)
     nsh = ctx.n(40000, 2000000)
-    rc, so, e = sh2([exe, "search", "-seed", str(ctx.seed), "-n", str(ns), "-nt", str(nst), "-nh", str(nsh), "-exh", str(exh)], timeout=3000)
+    nsn = ctx.n(20000, 1000000)
+    rc, so, e = sh2([exe, "search", "-seed", str(ctx.seed), "-n", str(ns), "-nt", str(nst), "-nh", str(nsh), "-nn", str(nsn), "-exh", str(exh)], timeout=3000)
     if rc != 0:
         raise common.CheckError("harness search failed: " + e[-1000:])
     fails = []
@@ -180,7 +206,9 @@ def run(ctx):
                        "Size() = len(Payload()), a struct literal with m's exported fields has the same Payload()/Size() (payload-depends-on-history), "
                        "decode(Payload()) has the same exported fields AND the same Payload() bytes, Payload() does not change the fields, "
                        "WriteSEIMessages([m]) = naive serialisation of the literal, avc/hevc.ParseSEINalu of it returns the same fields; "
-                       "pass-through messages keep payload and size after edits of their exported fields" % (exh, n))
+                       "pass-through messages keep payload and size after edits of their exported fields; mixed lists in the domain of "
+                       "C17_nalu_roundtrip through avc/hevc.ParseSEINalu with generated SPS parameters: no error, as many messages as written, each of "
+                       "the Go type its (codec, type, SPS) calls for, written Type()/Payload() bytes, Size() = len, typed fields equal" % (exh, n))
 
 
 def replay(ctx, path):
